@@ -124,6 +124,16 @@ func (w *World) Levels(topic string) []string {
 	}
 	return []string{"?unknown topic", topic}
 }
+
+// SplitMounted splits a broker-internal topic "<mount>/<topic>" into the mount point and the
+// level sequence of the client-facing topic.
+func (w *World) SplitMounted(mounted string) (string, []string) {
+	i := strings.IndexByte(mounted, '/')
+	if i < 0 {
+		return "", []string{"?no mount point", mounted}
+	}
+	return mounted[:i], w.Levels(mounted[i+1:])
+}
 func (w *World) Register(levels []string) string {
 	s := strings.Join(levels, "/")
 	w.mu.Lock()
@@ -270,7 +280,7 @@ func (a authWrap) Authenticate(ctx context.Context, m auth.ApplicationContext, t
 	}
 	// deterministic session identifiers: the harness names the connection in RemoteAddress
 	p.ID = "s" + strings.TrimPrefix(t.RemoteAddress, "c")
-	a.w.R.Emit(rec.Ev{"op": "auth", "c": t.RemoteAddress, "user": string(m.Username), "ok": err == nil, "mount": p.MountPoint})
+	a.w.R.Emit(rec.Ev{"op": "auth", "s": p.ID, "user": string(m.Username), "ok": err == nil, "mount": p.MountPoint})
 	return p, err
 }
 
@@ -329,7 +339,8 @@ func (l *logWrap) Append(p *packet.Publish) error {
 		l.next++
 		l.appended++
 	}
-	l.n.W.R.Emit(rec.Ev{"op": "log.append", "n": l.n.ID, "off": off, "topic": string(p.Topic), "p": string(p.Payload), "q": p.Header.Qos,
+	mount, lv := l.n.W.SplitMounted(string(p.Topic))
+	l.n.W.R.Emit(rec.Ev{"op": "log.append", "n": l.n.ID, "off": off, "mount": mount, "t": lv, "p": string(p.Payload), "q": p.Header.Qos,
 		"r": p.Header.Retain, "ok": err == nil})
 	return err
 }
@@ -453,7 +464,7 @@ func (w *World) Open(c int, nodeID int) *Client {
 	w.mu.Lock()
 	w.Conns[c] = cl
 	w.mu.Unlock()
-	w.R.Emit(rec.Ev{"op": "conn.open", "c": c, "n": nodeID})
+	w.R.Emit(rec.Ev{"op": "conn.open", "c": c, "n": nodeID, "s": fmt.Sprintf("s%d", c)})
 	go n.Mgr.Setup(n.ctx, transport.Metadata{Name: "vpipe", RemoteAddress: fmt.Sprintf("c%d", c), Channel: k})
 	return cl
 }
